@@ -393,6 +393,8 @@ def gen_config(rng, tier):
     # elsewhere: values taken from a fresh instance; they are frozen inputs like any other
     if rng.random() < 0.35:
         cfg["derived"] = rng.sample(DERIVED_INPUTS, rng.randrange(1, 3))
+    if rng.random() < 0.3:
+        cfg["center"] = [0.25, -0.125, 0.5]      # an off-centre extraction sphere / tetrad centre
     return cfg
 
 
@@ -431,7 +433,13 @@ def build(cfg):
     kw = dict(verbose=False, clear_cache_every_nbr_calc=cfg["period"],
               memory_threshold_inGB=int(cfg["thr_scalars"] * scalar) / 2 ** 30,
               vacuum=cfg["vacuum"], Lambda=cfg["Lambda"], tetrad=cfg["tetrad"], lmax=2)
+    if cfg.get("center"):
+        kw["center"] = tuple(cfg["center"])
     rel = Traced(fd, **kw)
+    # the FiniteDifference object is shared state outside the cache (over_time uses ONE for all its steps): no
+    # request may change it
+    rel._fd_snapshot = {n: np.array(getattr(fd, n), copy=True) for n in
+                        ("xarray", "yarray", "zarray", "x", "y", "z", "r", "theta", "phi")}
     rel.h_header()
     if cfg["inputs"].startswith("sol:"):
         import importlib
@@ -602,6 +610,10 @@ def execute(cfg, ops, on_value=None, watch_values=False):
                 break
             fails += mon.check(i)
             fails += mon.check_values(i)
+            for n, v in rel._fd_snapshot.items():
+                if not np.array_equal(getattr(rel.fd, n), v, equal_nan=True):
+                    fails.append(("the grid object was modified (fd.%s)" % n, op, i))
+                    rel._fd_snapshot[n] = np.array(getattr(rel.fd, n), copy=True)
             if tr.failures:
                 fails += [f + (i,) for f in tr.failures]
                 del tr.failures[:]
